@@ -12,9 +12,10 @@ def build(flavor="plain"):
     return vlib.build_harness("solver_drive", flavor)
 
 
-def mode_cmds(o, mode, loose=False):
+def mode_cmds(o, mode, loose=False, ticks=1):
     name, adaptive = mode
-    cmds = ["STEPPER %d %s %d %d" % (o, name, adaptive, 4000 if name in ("rk2",) else 400)]
+    # fixed-step runs still go through GSL's error control: enough steps per unit of time that the step error stays below the tolerance
+    cmds = ["STEPPER %d %s %d %d" % (o, name, adaptive, (4000 if name in ("rk2",) else 400) * max(1, ticks))]
     if loose:
         cmds.append("TOL %d 1e-5 1e-5" % o)
     else:
@@ -144,7 +145,7 @@ def flow_cfg(name, ncfg, maxseg, ticks, first, later):
 def flow_script(hist, cfg, mode, t04, move_kind):
     """script executing a history of segments (sw, n) on slot 1 (moving to slot 2 between segments if asked)"""
     nx, nsun, nrhos, nsc = cfg
-    cmds = ["QUIET 1", "NEW 1 %d %d %d %d %d" % (nx, nsun, nrhos, nsc, t04)] + mode_cmds(1, mode)
+    cmds = ["QUIET 1", "NEW 1 %d %d %d %d %d" % (nx, nsun, nrhos, nsc, t04)] + mode_cmds(1, mode, ticks=max([1] + [n for _, n in hist]))
     cur = 1
     prev = 0
     for si, (sw, n) in enumerate(hist):
@@ -202,6 +203,17 @@ def flow_replay(exe, cases, jobs=14, timeout=1800):
                 continue
             dumps = {tag: (t, vals) for tag, t, vals in parse_dumps(lines)}
             exc = [l for l in lines if '"e":"Exception"' in l]
+            if exc:
+                fails.append("a driver command raised an exception: %s" % exc[:2])
+                continue
+            threw = {}
+            last = False
+            for l in lines:
+                if l.startswith('{"e":"EvolveEnd"'):
+                    last = '"threw":true' in l
+                elif l.startswith("DUMP "):
+                    threw[l.split()[1]] = last
+                    last = False
             for i, c in chunk:
                 tt = c["t04"] / 4.0
                 for si, e in enumerate(c["edges"]):
@@ -211,6 +223,10 @@ def flow_replay(exe, cases, jobs=14, timeout=1800):
                         res.append((i, si, float("inf"), 1.0, float("inf")))
                         continue
                     t, vals = dumps[tag]
+                    if threw.get(tag) and not c["mode"][1]:
+                        # GSL refused a fixed step for error control: a matter of the run's configuration, not of SQuIDS
+                        fails.append("GSL reported a step failure in fixed-step mode %s for hist=%s" % (c["mode"], e["hist"]))
+                        break
                     exp = expected_vector(e)
                     if len(vals) != len(exp):
                         res.append((i, si, float("inf"), 1.0, abs(t - tt)))
